@@ -1601,6 +1601,10 @@ def explore(ctx, widen=1):
                for c in c19_stv.model_cases(ctx.rng, gen_election, k, special=sp)]
               + list(c19_stv.model_cases(ctx.rng, gen_election, n(80, 800), hostile=True)))
     run_cases(ctx, 'stv-lines', 'stv-lines', c19_stv.lines_cases(ctx.rng, gen_election, n(5000, 50000) * widen))
+    ctx.dist['stv-model:written-lines-differ-from-model'] = c19_stv.LINES_DIFFER[0]
+    if c19_stv.LINES_DIFFER[0]:
+        ctx.notes.append('stv-model: %d elections are written with other lines than the model writes (both texts are read alike by both readers: '
+                         'harmless rewrite of the writer, the round-trip theorem is then about the model writer only)' % c19_stv.LINES_DIFFER[0])
     stv_stream(ctx, n(1500, 15000) * widen)
     stv_stream(ctx, n(40, 400), special='many')
     stv_stream(ctx, n(40, 400), special='dec-exponent')
